@@ -12,8 +12,12 @@
          (fp.leq (_ +zero 8 24) n) (fp.leq n ((_ to_fp 8 24) RNE 1.0))
          (or (= k #x00) (fp.gt n (grad.off nreg nbase (bvsub k #x01)))))))
 ; the first `upto` stops are valid
-(define-fun grad.validUpTo ((creg Pal) (nreg NRegs) (cbase (_ BitVec 8)) (nbase (_ BitVec 8)) (upto (_ BitVec 8))) Bool
-  (forall ((k!g (_ BitVec 8))) (=> (bvult k!g upto) (grad.stopOK creg nreg cbase nbase k!g))))
+; (an opaque name revealed by a trigger axiom, like grad.valid below: steps that only need congruence - the same
+; registers, bases and count - then involve no quantifier instantiation at all)
+(declare-fun grad.validUpTo (Pal NRegs (_ BitVec 8) (_ BitVec 8) (_ BitVec 8)) Bool)
+(assert (forall ((creg!v Pal) (nreg!v NRegs) (cb!v (_ BitVec 8)) (nb!v (_ BitVec 8)) (u!v (_ BitVec 8)))
+  (! (= (grad.validUpTo creg!v nreg!v cb!v nb!v u!v) (forall ((k!g (_ BitVec 8))) (=> (bvult k!g u!v) (grad.stopOK creg!v nreg!v cb!v nb!v k!g))))
+     :pattern ((grad.validUpTo creg!v nreg!v cb!v nb!v u!v)))))
 ; "the gradient at (cbase, nbase) with n stops is usable": opaque name for (all n stops valid and n >= 2),
 ; revealed by the axiom below (callers that only compare verdicts need not look inside)
 (declare-fun grad.valid (Pal NRegs (_ BitVec 8) (_ BitVec 8) (_ BitVec 8)) Bool)
